@@ -794,11 +794,11 @@ class RGraph:
         assert result_accumdata.commit is None
 
         # ==== prepare fake "not-merged-yet" build info ======
-        all_commits_prev_branch = {
-            iid: commit
-            for rbuild in prev_branch.rbuilds.values()
-            for iid, commit in rbuild.rcommits.items()
-        } if prev_branch is not None else {}
+        # all the report-related commits found so far - in this and in all
+        # the previous branches. (It is not enough to check the commits listed
+        # in the previous branch: it lists nothing if it's head is located
+        # inside one of earlier branches.)
+        all_commits_prev_branch = dict(self.rcommits)
 
         all_commits_in_this_branch = {
             iid
